@@ -150,7 +150,7 @@ func (e *Executor) RunTask(ctx context.Context, call *Call) error {
 	release := e.acquireConcurrencyLimit()
 	defer release()
 
-	return e.startExecution(ctx, t, func(ctx context.Context) error {
+	err = e.startExecution(ctx, t, func(ctx context.Context) error {
 		e.Logger.VerboseErrf(logger.Magenta, "task: %q started\n", call.Task)
 		if err := e.runDeps(ctx, t); err != nil {
 			// A failing command of a dependency is reported like a failing
@@ -255,6 +255,13 @@ func (e *Executor) RunTask(ctx context.Context, call *Call) error {
 		e.Logger.VerboseErrf(logger.Magenta, "task: %q finished\n", call.Task)
 		return nil
 	})
+	// A task named on the command line that waited for a shared execution started
+	// by a dependency gets that execution's bare error: report a failing command
+	// as a task-run error here as well
+	if _, isExitError := interp.IsExitStatus(err); isExitError && !call.Indirect {
+		return &errors.TaskRunError{TaskName: t.Task, Err: err}
+	}
+	return err
 }
 
 func (e *Executor) mkdir(t *ast.Task) error {
